@@ -84,6 +84,9 @@ def enc(rc, v):
 
 def build(rng, quick, origin=None):
     ntypes = rng.choice([1, 1, 2])
+    # origin reference and copy number of the object names (ORIGIN is a UVARI: 1, 2 or 4 bytes on file)
+    oref = rng.choice([1, 2, 41, 127, 128, 300, 16383, 16384, 70000])
+    copyno = rng.choice([0, 0, 1, 3])
     chans_all, frames = [], []
     types = []
     for t in range(ntypes):
@@ -92,7 +95,7 @@ def build(rng, quick, origin=None):
         for c in range(nch):
             rc = rng.choice([2, 7]) if c == 0 else rng.choice([2, 7, 12, 13, 14, 15, 16, 17, 5, 6, 6])
             dims = [1] if c == 0 else rng.choice([[1], [1], [2], [3], [2, 2], [2, 3]])
-            chs.append(dict(name=('T%dC%d' % (t, c)).encode(), long_name=b'long name %d' % c, rc=rc, units=b'm' if c == 0 else b'', dims=dims))
+            chs.append(dict(o=oref, c=copyno, name=('T%dC%d' % (t, c)).encode(), long_name=b'long name %d' % c, rc=rc, units=b'm' if c == 0 else b'', dims=dims))
         chans_all += chs
         types.append(dict(name=b'FT%d' % t, channels=chs, n=rng.choice([1, 2, 5, 9, 30] if not quick else [1, 2, 5, 9])))
     # file order of data records: interleave the types, sprinkle empty records
@@ -101,14 +104,14 @@ def build(rng, quick, origin=None):
         order += [t] * ty['n']
     rng.shuffle(order)
     recs = [dict(kind='E', type=0, enc=False), dict(kind='E', type=1, enc=False), dict(kind='E', type=3, enc=False), dict(kind='E', type=4, enc=False)]
-    payloads = [GL.file_header(), origin or GL.origin(), GL.channel_eflr(rng.sample(chans_all, len(chans_all)) if rng.random() < 0.6 else chans_all), GL.frame_eflr([dict(name=ty['name'], channels=ty['channels']) for ty in types])]
+    payloads = [GL.file_header(), origin or GL.origin(), GL.channel_eflr(rng.sample(chans_all, len(chans_all)) if rng.random() < 0.6 else chans_all), GL.frame_eflr([dict(o=oref, name=ty['name'], channels=ty['channels']) for ty in types])]
     counters = [0] * ntypes
     frame_nos = [[] for _ in types]
-    fno = [0] * ntypes
+    fno = [rng.choice([0, 0, 120, 16380]) for _ in types]       # frame numbers are UVARIs too
     for t in order:
         if rng.random() < 0.12:
             fno[t] += 1
-            payloads.append(GL.iflr(types[t]['name'], fno[t], b''))          # an empty data record: no frame
+            payloads.append(GL.iflr(types[t]['name'], fno[t], b'', o=oref))          # an empty data record: no frame
             recs.append(dict(kind='I', type=0, enc=False))
         r = counters[t]
         counters[t] += 1
@@ -119,7 +122,7 @@ def build(rng, quick, origin=None):
             n = int(np.prod(ch['dims']))
             for e in range(n):
                 data += enc(ch['rc'], value_of(ch['rc'], r, c, e))
-        payloads.append(GL.iflr(types[t]['name'], fno[t], data))
+        payloads.append(GL.iflr(types[t]['name'], fno[t], data, o=oref))
         recs.append(dict(kind='I', type=0, enc=False))
     for rec, p in zip(recs, payloads):
         rec['len'] = len(p)
